@@ -9,6 +9,9 @@
 //!   `tie <disc> <k> <m> <opseed> P`        as `conc`, every node's public `priority` overwritten with 0..3 (ties in every merge):
 //!                                          the shapes must equal those of the same operations run alone
 //!   `deep <disc> <k> <m> <opseed> P`       as `conc` with up to 64 threads, uncapped treaps, two split+merge rotations per draw
+//!   `render <disc> <k> <m> <opseed> P`     as `conc`, every draw followed by two renderings of all of the thread's treaps
+//!                                          (`TreePrinter`, `Debug` of `Treap` and of `TreapNode`): each must equal the
+//!                                          documented layout computed by hand and the rendering of the run alone
 //!   `sched <disc> P ; m0 m1 … ; i0 i1 …`   thread `j` makes `mj` draws (the schedule is for the model: real threads
 //!                                          are scheduled by the OS)
 //!   `fsched <disc> P ; m0 m1 … ; i0 i1 …`  the same; the model runs its fine-grained system (get/set,
@@ -28,7 +31,7 @@ mod common;
 use common::*;
 use rlib_rand::Rng;
 use rlib_treap::{TreapItem, TreapItemSized, TreapNode};
-use rlib_treap::Treap;
+use rlib_treap::{Treap, TreePrinter};
 use std::sync::{Arc, Barrier};
 
 #[derive(Clone, Copy, Debug)]
@@ -101,6 +104,111 @@ struct It {
     sum: u64,
 }
 
+// (hand-written, short: derived `Debug` goes through `debug_struct`, which is very slow under Miri)
+impl std::fmt::Debug for It {
+    fn fmt(&self, f: &mut std::fmt::Formatter<'_>) -> std::fmt::Result {
+        write!(f, "It{}/{}", self.id, self.size)
+    }
+}
+
+/// A bare key: relies on the DEFAULT (empty) `TreapItem::update` / `TreapItem::push` and has no `TreapItemSized`
+/// (the item of rlib's own `set` test). The third treap of every stress thread holds these.
+#[derive(Default)]
+struct Plain(u64);
+
+impl std::fmt::Debug for Plain {
+    fn fmt(&self, f: &mut std::fmt::Formatter<'_>) -> std::fmt::Result {
+        write!(f, "P{}", self.0)
+    }
+}
+
+impl TreapItem for Plain {}
+
+// ---------------------------------------------------------------------------------------------
+// renderings computed by hand (public fields only): the layouts `print.rs` documents
+// ---------------------------------------------------------------------------------------------
+
+/// `TreePrinter`: one line `- <item>` per node, `- [None]` per missing child, three columns per level
+fn tree_by_hand<T: std::fmt::Debug>(node: &Option<Box<TreapNode<T>>>, depth: usize, out: &mut String) {
+    use std::fmt::Write;
+    for _ in 0..3 * depth {
+        out.push(' ');
+    }
+    match node {
+        None => out.push_str("- [None]\n"),
+        Some(n) => {
+            let _ = writeln!(out, "- {:?}", n.item);
+            tree_by_hand(&n.left, depth + 1, out);
+            tree_by_hand(&n.right, depth + 1, out);
+        }
+    }
+}
+
+/// `Debug` of `Treap` / `TreapNode`: the items in order, each followed by one blank
+fn inorder_by_hand<T: std::fmt::Debug>(node: &Option<Box<TreapNode<T>>>, out: &mut String) {
+    use std::fmt::Write;
+    if let Some(n) = node {
+        inorder_by_hand(&n.left, out);
+        let _ = write!(out, "{:?} ", n.item);
+        inorder_by_hand(&n.right, out);
+    }
+}
+
+fn fnv_str(s: &str) -> u64 {
+    let mut h: u64 = 0xcbf29ce484222325;
+    for &b in s.as_bytes() {
+        h = (h ^ b as u64).wrapping_mul(0x100000001b3);
+    }
+    h
+}
+
+/// a `fmt::Write` sink that gives up (formatting error) once more than `cap` bytes arrived: a rendering that
+/// runs away (e.g. an indentation that grew without bound) ends as a wrong text instead of gigabytes of blanks
+struct Bounded {
+    buf: String,
+    cap: usize,
+}
+
+impl std::fmt::Write for Bounded {
+    fn write_str(&mut self, s: &str) -> std::fmt::Result {
+        if self.buf.len() + s.len() > self.cap {
+            return Err(std::fmt::Error);
+        }
+        self.buf.push_str(s);
+        Ok(())
+    }
+}
+
+/// `format!("{:?}", x)`, given that the result is expected to be about `expect` bytes long
+fn render<D: std::fmt::Debug>(x: &D, expect: usize) -> String {
+    use std::fmt::Write;
+    let mut b = Bounded { buf: String::with_capacity(expect + 16), cap: 2 * expect + 256 };
+    match write!(b, "{:?}", x) {
+        Ok(()) => b.buf,
+        Err(_) => format!("<formatting failed or ran away after {} bytes>", b.buf.len()),
+    }
+}
+
+/// every way the crate renders a treap, against the layouts computed by hand
+fn render_all<T: TreapItem + std::fmt::Debug>(t: &Treap<T>, got: &mut Vec<u64>, want: &mut Vec<u64>) {
+    let mut w = String::new();
+    tree_by_hand(&t.root, 0, &mut w);
+    got.push(fnv_str(&render(&TreePrinter::new(t), w.len())));
+    want.push(fnv_str(&w));
+    if cfg!(miri) && t.root.as_ref().map_or(false, |r| r.left.is_some() && r.right.is_some()) {
+        // formatting is very slow under Miri: the two `Debug` impls only for treaps whose root lacks a child
+        return;
+    }
+    let mut w = String::new();
+    inorder_by_hand(&t.root, &mut w);
+    got.push(fnv_str(&render(t, w.len())));
+    want.push(fnv_str(&w));
+    if let Some(r) = t.root.as_ref() {
+        got.push(fnv_str(&render(r, w.len())));
+        want.push(fnv_str(&w));
+    }
+}
+
 impl It {
     fn new(id: u64) -> It {
         It { id, size: 1, sum: id }
@@ -151,6 +259,9 @@ enum Mode {
     Tie,
     /// no size cap, two split+merge rotations after every draw: tall treaps, threads spend their time inside `split`
     Deep,
+    /// as `Heavy`, and all treaps of the thread are rendered twice after every draw: threads spend their time
+    /// inside `TreePrinter` / `Debug`
+    Render,
 }
 
 struct ThreadOut {
@@ -159,19 +270,29 @@ struct ThreadOut {
     result: u64,
     /// the same digest computed on plain Vecs
     oracle: u64,
-    /// digest of the shapes (pre-order ids and priorities through the public fields) of both treaps at the end
+    /// digest of the shapes (pre-order ids and priorities through the public fields) of the three treaps at the end
     shape: u64,
+    /// digest of every rendering (`TreePrinter`, `Debug`) the thread made of its own treaps
+    render: u64,
+    /// the same renderings computed by hand from the public fields
+    render_oracle: u64,
     ops: [u64; 8],
     panic: Option<String>,
 }
 
-fn shape_into(root: &Option<Box<TreapNode<It>>>, out: &mut Vec<u64>) {
-    let mut stack: Vec<&Option<Box<TreapNode<It>>>> = vec![root];
+impl ThreadOut {
+    fn died(why: String) -> ThreadOut {
+        ThreadOut { prios: Vec::new(), result: 0, oracle: 1, shape: 0, render: 0, render_oracle: 0, ops: [0; 8], panic: Some(why) }
+    }
+}
+
+fn shape_into<T>(root: &Option<Box<TreapNode<T>>>, id: impl Fn(&T) -> u64, out: &mut Vec<u64>) {
+    let mut stack: Vec<&Option<Box<TreapNode<T>>>> = vec![root];
     while let Some(n) = stack.pop() {
         match n {
             None => out.push(u64::MAX),
             Some(b) => {
-                out.push(b.item.id);
+                out.push(id(&b.item));
                 out.push(b.priority as u64);
                 stack.push(&b.right);
                 stack.push(&b.left);
@@ -187,7 +308,7 @@ fn shape_into(root: &Option<Box<TreapNode<It>>>, out: &mut Vec<u64>) {
 fn thread_work(tid: usize, m: usize, opseed: u64, mode: Mode) -> ThreadOut {
     match catch(|| thread_body(tid, m, opseed, mode)) {
         Ok(o) => o,
-        Err(e) => ThreadOut { prios: Vec::new(), result: 0, oracle: 1, shape: 0, ops: [0; 8], panic: Some(e) },
+        Err(e) => ThreadOut::died(e),
     }
 }
 
@@ -198,6 +319,10 @@ fn thread_body(tid: usize, m: usize, opseed: u64, mode: Mode) -> ThreadOut {
     let mut vsum: u64 = 0;
     let mut s: Treap<It> = Treap::new();
     let mut sv: Vec<u64> = Vec::new();
+    // third treap: bare keys (default `update`/`push`), kept sorted with `TreapNode::split_by` called directly
+    let mut pt: Treap<Plain> = Treap::default();
+    let mut pv: Vec<u64> = Vec::new();
+    let (mut rgot, mut rwant): (Vec<u64>, Vec<u64>) = (Vec::new(), Vec::new());
     let mut prios = Vec::with_capacity(m);
     let mut res: Vec<u64> = Vec::new();
     let mut orc: Vec<u64> = Vec::new();
@@ -205,7 +330,7 @@ fn thread_body(tid: usize, m: usize, opseed: u64, mode: Mode) -> ThreadOut {
     let cap = if mode == Mode::Deep { usize::MAX } else { 256 };
     for d in 0..m {
         let id = ((tid as u64) << 32) | d as u64;
-        let kind = rng.below(6);
+        let kind = rng.below(7);
         if kind < 3 && mode != Mode::Tie {
             // the usual way: the node is created inside insert_at; read its priority back from the tree
             let pos = rng.below(v.len() as u64 + 1) as usize;
@@ -227,6 +352,19 @@ fn thread_body(tid: usize, m: usize, opseed: u64, mode: Mode) -> ThreadOut {
             v.insert(pos, id);
             vsum = vsum.wrapping_add(id);
             ops[1] += 1;
+        } else if kind == 6 {
+            // bare keys: `Treap::from_item` creates the node, `TreapNode::split_by` (called directly) finds the place
+            let key = (rng.below(1 << 30) << 24) | (d as u64 & 0xff_ffff);
+            let mut one = Treap::from_item(Plain(key));
+            prios.push(one.root.as_ref().unwrap().priority as u64);
+            if mode == Mode::Tie {
+                one.root.as_mut().unwrap().priority = rng.below(4) as u32 as _;
+            }
+            let (a, b) = TreapNode::split_by(pt.root.take(), |it| it.0 < key);
+            pt = Treap::merge(Treap::merge(Treap { root: a }, one), Treap { root: b });
+            let at = pv.partition_point(|&x| x < key);
+            pv.insert(at, key);
+            ops[7] += 1;
         } else {
             // key-sorted treap: split_by + merge
             let key = (rng.below(1 << 30) << 24) | (d as u64 & 0xff_ffff);
@@ -245,8 +383,53 @@ fn thread_body(tid: usize, m: usize, opseed: u64, mode: Mode) -> ThreadOut {
         if mode != Mode::Normal || v.len() > 64 {
             let extra = if mode == Mode::Deep { 2 } else { rng.below(3) };
             for _ in 0..extra {
-                let what = rng.below(4);
-                if mode != Mode::Deep && !v.is_empty() && (what == 0 || v.len() > cap) {
+                let what = rng.below(5);
+                if what == 4 {
+                    // the node-level API called directly on the roots: `push`, `update` (they change nothing
+                    // observable here), `collect_into` into a vector that already holds the other treap's elements
+                    if let Some(r) = t.root.as_mut() {
+                        r.push();
+                        r.update();
+                    }
+                    if let Some(r) = pt.root.as_mut() {
+                        r.push();
+                        r.update();
+                    }
+                    {
+                        let mut both: Vec<&Plain> = Vec::new();
+                        if let Some(r) = pt.root.as_mut() {
+                            r.collect_into(&mut both);
+                            res.push(both.len() as u64);
+                            res.extend(both.iter().map(|i| i.0));
+                        } else {
+                            res.push(0);
+                        }
+                        orc.push(pv.len() as u64);
+                        orc.extend(pv.iter().copied());
+                    }
+                    if !pv.is_empty() && (mode == Mode::Deep || pv.len() >= 24) {
+                        // remove a key with two direct `TreapNode::split_by`s
+                        let key = pv[rng.below(pv.len() as u64) as usize];
+                        let (a, bc) = TreapNode::split_by(pt.root.take(), |it| it.0 < key);
+                        let (b, c) = TreapNode::split_by(bc, |it| it.0 <= key);
+                        res.push(b.as_ref().map_or(u64::MAX, |n| n.item.0));
+                        orc.push(key);
+                        if mode == Mode::Deep {
+                            pt.root = TreapNode::merge(TreapNode::merge(a, b), c);
+                        } else {
+                            pt.root = TreapNode::merge(a, c);
+                            let at = pv.partition_point(|&x| x < key);
+                            pv.remove(at);
+                        }
+                    }
+                    res.push(pt.first().map_or(u64::MAX, |i| i.0));
+                    orc.push(pv.first().copied().unwrap_or(u64::MAX));
+                    res.push(pt.last().map_or(u64::MAX, |i| i.0));
+                    orc.push(pv.last().copied().unwrap_or(u64::MAX));
+                    res.push(pt.is_empty() as u64);
+                    orc.push(pv.is_empty() as u64);
+                    ops[7] += 1;
+                } else if mode != Mode::Deep && !v.is_empty() && (what == 0 || v.len() > cap) {
                     let p = rng.below(v.len() as u64) as usize;
                     res.push(t.remove_at(p).id);
                     let x = v.remove(p);
@@ -298,15 +481,41 @@ fn thread_body(tid: usize, m: usize, opseed: u64, mode: Mode) -> ThreadOut {
             orc.push(sv.is_empty() as u64);
             ops[6] += 1;
         }
+        // rendering a thread-owned treap (`TreePrinter`, `Debug` of `Treap` / `TreapNode`) is an operation like any
+        // other: the text must be the documented layout and the same as when the thread runs alone
+        let renders = match mode {
+            Mode::Render => 2,
+            // (formatting is very slow under Miri: there the two threads render twice on the way and once at the end)
+            Mode::Heavy | Mode::Tie if cfg!(miri) => (d == m / 2) as usize,
+            Mode::Heavy | Mode::Tie => 1,
+            // the bulk streams: often while the treaps are small, then rarely (a rendering is linear in the size)
+            Mode::Normal => ((d < 256 && d % 8 == 0) || d % 1024 == 0) as usize,
+            Mode::Deep => (d % 1024 == 0) as usize,
+        };
+        for _ in 0..renders {
+            render_all(&t, &mut rgot, &mut rwant);
+            if !cfg!(miri) {
+                render_all(&s, &mut rgot, &mut rwant);
+                render_all(&pt, &mut rgot, &mut rwant);
+            }
+        }
     }
     res.extend(t.collect().iter().map(|i| i.id));
     orc.extend(v.iter().copied());
     res.extend(s.collect().iter().map(|i| i.id));
     orc.extend(sv.iter().copied());
+    res.extend(pt.collect().iter().map(|i| i.0));
+    orc.extend(pv.iter().copied());
+    if !cfg!(miri) {
+        render_all(&t, &mut rgot, &mut rwant);
+        render_all(&s, &mut rgot, &mut rwant);
+    }
+    render_all(&pt, &mut rgot, &mut rwant);
     let mut sh = Vec::new();
-    shape_into(&t.root, &mut sh);
-    shape_into(&s.root, &mut sh);
-    ThreadOut { prios, result: fnv(&res), oracle: fnv(&orc), shape: fnv(&sh), ops, panic: None }
+    shape_into(&t.root, |i| i.id, &mut sh);
+    shape_into(&s.root, |i| i.id, &mut sh);
+    shape_into(&pt.root, |i| i.0, &mut sh);
+    ThreadOut { prios, result: fnv(&res), oracle: fnv(&orc), shape: fnv(&sh), render: fnv(&rgot), render_oracle: fnv(&rwant), ops, panic: None }
 }
 
 /// the programs on real threads released together by a barrier
@@ -323,7 +532,7 @@ fn run_concurrently(progs: &[usize], opseed: u64, mode: Mode) -> Vec<ThreadOut> 
     handles
         .into_iter()
         .map(|h| {
-            h.join().unwrap_or_else(|_| ThreadOut { prios: Vec::new(), result: 0, oracle: 1, shape: 0, ops: [0; 8], panic: Some("panic:join".into()) })
+            h.join().unwrap_or_else(|_| ThreadOut::died("panic:join".into()))
         })
         .collect()
 }
@@ -337,7 +546,7 @@ fn run_alone(progs: &[usize], opseed: u64, mode: Mode) -> Vec<ThreadOut> {
         .map(|(tid, &m)| {
             std::thread::spawn(move || thread_work(tid, m, opseed, mode))
                 .join()
-                .unwrap_or_else(|_| ThreadOut { prios: Vec::new(), result: 0, oracle: 1, shape: 0, ops: [0; 8], panic: Some("panic:join".into()) })
+                .unwrap_or_else(|_| ThreadOut::died("panic:join".into()))
         })
         .collect()
 }
@@ -355,6 +564,12 @@ fn treap_verdict(outs: &[ThreadOut], solo: &[ThreadOut], shapes: bool) -> Option
         }
         if o.result != solo[i].result {
             return Some(format!("fail:treap-thread{}-differs-from-run-alone", i));
+        }
+        if o.render != o.render_oracle {
+            return Some(format!("fail:treap-thread{}-rendering-(TreePrinter/Debug)-of-its-own-treaps-differs-from-the-documented-layout", i));
+        }
+        if o.render != solo[i].render {
+            return Some(format!("fail:treap-thread{}-rendering-(TreePrinter/Debug)-of-its-own-treaps-differs-from-run-alone", i));
         }
         if shapes && o.shape != solo[i].shape {
             return Some(format!("fail:treap-thread{}-shape-differs-from-run-alone-with-the-same-priorities", i));
@@ -518,7 +733,7 @@ fn parse_run_line(line: &str) -> Option<(String, Vec<usize>, u64, Params, Mode)>
     let parts: Vec<&str> = line.split(';').map(|s| s.trim()).collect();
     let ts: Vec<&str> = parts[0].split_whitespace().collect();
     match ts.first().copied() {
-        Some("conc") | Some("tie") | Some("deep") if parts.len() == 1 && ts.len() == 11 => {
+        Some("conc") | Some("tie") | Some("deep") | Some("render") if parts.len() == 1 && ts.len() == 11 => {
             let k: usize = ts[2].parse().ok()?;
             let m: usize = ts[3].parse().ok()?;
             let opseed: u64 = ts[4].parse().ok()?;
@@ -529,6 +744,7 @@ fn parse_run_line(line: &str) -> Option<(String, Vec<usize>, u64, Params, Mode)>
             let mode = match ts[0] {
                 "tie" => Mode::Tie,
                 "deep" => Mode::Deep,
+                "render" => Mode::Render,
                 _ => Mode::Normal,
             };
             Some((ts[1].to_string(), vec![m; k], opseed, p, mode))
@@ -561,7 +777,7 @@ fn run_case(line: &str, disc: &str) -> String {
             let real: Vec<u64> = (0..n).map(|_| p.mask(rng.next_raw())).collect();
             out1(&show_stream(&real))
         }
-        Some("conc") | Some("tie") | Some("deep") | Some("sched") | Some("fsched") => {
+        Some("conc") | Some("tie") | Some("deep") | Some("render") | Some("sched") | Some("fsched") => {
             if parse_run_line(line).is_none() {
                 return out1("INVALID");
             }
@@ -809,6 +1025,17 @@ fn main() {
                     emit(format!("tie {} {} {} {} {}", disc, k, m, rng.next_u64() >> 1, p.show()));
                     stats.bump("tie");
                     stats.add("tie_draws", (k * m) as u64);
+                }
+            }
+            // `render` = every thread renders its own treaps (TreePrinter / Debug) after every draw: state shared
+            // through the printing code shows as a text that differs from the documented layout / the run alone
+            let render_plan: Vec<(usize, usize, usize)> =
+                if thorough { vec![(2, 400, 2), (4, 400, 2), (8, 300, 2), (16, 200, 2), (64, 100, 1)] } else { vec![(4, 300, 1), (16, 150, 1)] };
+            for (k, m, reps) in render_plan {
+                for _ in 0..reps {
+                    emit(format!("render {} {} {} {} {}", disc, k, m, rng.next_u64() >> 1, p.show()));
+                    stats.bump("render");
+                    stats.add("render_draws", (k * m) as u64);
                 }
             }
             let deep_plan: Vec<(usize, usize, usize)> =
